@@ -436,6 +436,44 @@ func init() {
 		},
 		outside: "policies with side effects on the stack itself; longer install/remove sequences",
 	})
+
+	register(&property{
+		id: "C16",
+		gen: func(tier string, seed int) []symx.CaseSpec {
+			var out []symx.CaseSpec
+			for n := 0; n <= q(tier, 2, 3); n++ {
+				for spread := 0; spread <= 1; spread++ {
+					for recv := 0; recv <= 1; recv++ {
+						out = append(out, cs("VH_C16_Flat", n, spread, recv))
+					}
+				}
+			}
+			for f := 0; f <= q(tier, 4, 5); f++ {
+				out = append(out, cs("VH_C16_CondRow", f, 0, 0, q(tier, 6, 10)), cs("VH_C16_CondRow", f, 1, 1, q(tier, 5, 10)))
+			}
+			for lv := 0; lv <= 3; lv++ {
+				for inner := 0; inner <= 3; inner++ {
+					out = append(out, cs("VH_C16_Envelope", lv, inner))
+				}
+			}
+			n := q(tier, 150, 2000)
+			r := uint64(seed)*2654435761 + 99
+			for i := 0; i < n; i++ {
+				var digits []int
+				for k := 0; k < 30; k++ {
+					r = r*6364136223846793005 + 1442695040888963407
+					digits = append(digits, int((r>>33)%228))
+				}
+				out = append(out, cs("VH_C16_Junk", append([]int{1 + i%2, i % 2}, digits...)...))
+			}
+			return out
+		},
+		boundsText: map[string]string{
+			"quick":    "flat inputs of 0..2 entries, every combination of 19 entry kinds (labels in three casings, junk/empty strings, int, float, nil, typed nil, built-in operator with ANY 8-bit code, user operators valid/empty, ready-made Stack/Condition), spread and enveloped, zero and initialised (capacity symbolic) receivers; CONDITION rows with 0..4 fields, every combination of 6 (thorough: 10) kinds per field plus nested envelopes, alone and nested in an AND stack; envelopes wrapped 0..3 times around empty/leaf/stack/condition; 150 nested junk trees (depth<=2, <=3 entries per level) drawn from VERIF_SEED",
+			"thorough": "flat inputs up to 3 entries, CONDITION rows up to 5 fields, 2000 junk trees",
+		},
+		outside: "inputs wider/deeper than the bound; custom marshalers (C14)",
+	})
 }
 
 var _ = fmt.Sprint
